@@ -837,8 +837,34 @@ def c12_19(ctx):
                 return [ctx.err(spec, "TapLeaf constructor not evaluable: %s" % u, fn, mod)]
             if me.attrs.get("tap_script") is not script or me.attrs.get("tapleaf_version") != 0xC0:
                 return [ctx.bad(spec, "the leaf does not keep the script / leaf version it was given", fn, mod, key="leaf-any-size")]
-    ctx.count("cells", 2 * len(sizes))
-    return [ctx.ok(spec, "scripts of %s bytes all get a leaf that keeps script and version" % ", ".join(str(x) for x in sizes), fn, mod, key="leaf-any-size")]
+    # every leaf version consensus allows -- every even byte except 0x50 (the annex tag), BIP341 -- gives a leaf whose hash is
+    # TapLeaf(version ‖ compact_size(script) ‖ script): unknown versions are anyone-can-spend for validation but their trees, output keys and
+    # control blocks are computed in the same way
+    import hashlib
+    tag = hashlib.sha256(b"TapLeaf").digest()
+    body = b"\x20" + bytes(range(32)) + b"\xac"
+    hooks = {("Script", "raw_serialize"): lambda o: body, ("Script", "serialize"): lambda o: bytes([len(body)]) + body, ("Script", "__len__"): lambda o: len(body)}
+    nv = 0
+    for version in range(0, 256, 2):
+        if version == 0x50:
+            continue
+        nv += 1
+        me = Obj("taproot", "TapLeaf", {})
+        script = Obj("taproot", "TapScript", {"commands": [bytes(range(32)), 0xAC]})
+        try:
+            ev = Evaluator(ctx.repo, method_hooks=hooks)
+            ev.call(spec, [script, version], self_obj=me)
+            h = ev.call("taproot:TapLeaf.hash", [], self_obj=me)
+        except Raised as x:
+            return [ctx.bad(spec, "a leaf of version %#04x (an even byte other than 0x50: allowed by BIP341) cannot be built or hashed (%s): a tree holding it has no root, output key or "
+                                  "control blocks" % (version, x.name), fn, mod, key="leaf-any-size")]
+        except Undecided as u:
+            return [ctx.err(spec, "TapLeaf not evaluable: %s" % u, fn, mod)]
+        if h != hashlib.sha256(tag + tag + bytes([version, len(body)]) + body).digest():
+            return [ctx.bad(spec, "the hash of a leaf of version %#04x is not the tagged hash of version ‖ compact_size(script) ‖ script" % version, fn, mod, key="leaf-any-size")]
+    ctx.count("cells", 2 * len(sizes) + nv)
+    return [ctx.ok(spec, "scripts of %s bytes all get a leaf that keeps script and version; all %d leaf versions BIP341 allows build and hash" % (", ".join(str(x) for x in sizes), nv), fn, mod,
+                   key="leaf-any-size")]
 
 
 
